@@ -379,6 +379,7 @@ func (s *Server) publishDiagnosticsVersion(ctx context.Context, docURI protocol.
 	s.storeResolvedIfCurrent(docURI, version, resolved)
 
 	diagnostics := s.analyzeResolved(content, resolved)
+	mapper := newColumnMapper(content)
 
 	for _, err := range loadErrors {
 		severity := protocol.DiagnosticSeverityError
@@ -387,14 +388,8 @@ func (s *Server) publishDiagnosticsVersion(ctx context.Context, docURI protocol.
 		}
 		diagnostics = append(diagnostics, protocol.Diagnostic{
 			Range: protocol.Range{
-				Start: protocol.Position{
-					Line:      uint32(max(0, err.Range.Start.Line-1)),
-					Character: uint32(max(0, err.Range.Start.Column-1)),
-				},
-				End: protocol.Position{
-					Line:      uint32(max(0, err.Range.End.Line-1)),
-					Character: uint32(max(0, err.Range.End.Column-1)),
-				},
+				Start: mapper.lineColumn(max(1, err.Range.Start.Line), max(1, err.Range.Start.Column)),
+				End:   mapper.lineColumn(max(1, err.Range.End.Line), max(1, err.Range.End.Column)),
 			},
 			Severity: severity,
 			Source:   "hledger-lsp",
@@ -413,20 +408,13 @@ func (s *Server) analyze(content string) []protocol.Diagnostic {
 // commodities declared in included files count as declared, with or without a workspace.
 func (s *Server) analyzeResolved(content string, resolved *include.ResolvedJournal) []protocol.Diagnostic {
 	journal, parseErrs := parser.Parse(content)
+	mapper := newColumnMapper(content)
 
 	diagnostics := make([]protocol.Diagnostic, 0, len(parseErrs))
 	for _, err := range parseErrs {
+		pos := mapper.lineColumn(err.Pos.Line, err.Pos.Column)
 		diagnostics = append(diagnostics, protocol.Diagnostic{
-			Range: protocol.Range{
-				Start: protocol.Position{
-					Line:      uint32(err.Pos.Line - 1),
-					Character: uint32(err.Pos.Column - 1),
-				},
-				End: protocol.Position{
-					Line:      uint32(err.Pos.Line - 1),
-					Character: uint32(err.Pos.Column - 1),
-				},
-			},
+			Range:    protocol.Range{Start: pos, End: pos},
 			Severity: protocol.DiagnosticSeverityError,
 			Source:   "hledger-lsp",
 			Message:  err.Message,
@@ -456,16 +444,7 @@ func (s *Server) analyzeResolved(content string, resolved *include.ResolvedJourn
 			continue
 		}
 		diagnostics = append(diagnostics, protocol.Diagnostic{
-			Range: protocol.Range{
-				Start: protocol.Position{
-					Line:      uint32(diag.Range.Start.Line - 1),
-					Character: uint32(diag.Range.Start.Column - 1),
-				},
-				End: protocol.Position{
-					Line:      uint32(diag.Range.End.Line - 1),
-					Character: uint32(diag.Range.End.Column - 1),
-				},
-			},
+			Range:    *mapper.toProtocol(diag.Range),
 			Severity: toProtocolSeverity(diag.Severity),
 			Source:   "hledger-lsp",
 			Message:  diag.Message,
@@ -600,14 +579,18 @@ func (s *Server) getWorkspaceResolved(docURI protocol.DocumentURI) *include.Reso
 
 // resolvedWithPrimaryPath returns the resolved journal used for cross-file features together with
 // the path of the file its Primary journal was parsed from: the workspace root journal when the
-// workspace view is used, the document itself otherwise.
-func (s *Server) resolvedWithPrimaryPath(docURI protocol.DocumentURI) (*include.ResolvedJournal, string) {
+// workspace view is used, the document itself otherwise. The third result maps the positions of
+// every file's tree to LSP positions with the text that tree was parsed from: the workspace
+// parses open files from their buffers, the per-document tree consists of the document's
+// buffer (content) and its includes as read from disk.
+func (s *Server) resolvedWithPrimaryPath(docURI protocol.DocumentURI, content string) (*include.ResolvedJournal, string, *fileMappers) {
 	if s.workspace != nil {
 		if resolved := s.workspace.GetResolved(); resolved != nil {
-			return resolved, s.workspace.RootJournalPath()
+			return resolved, s.workspace.RootJournalPath(), s.openFileMappers()
 		}
 	}
-	return s.GetResolved(docURI), uriToPath(docURI)
+	path := uriToPath(docURI)
+	return s.GetResolved(docURI), path, newFileMappers(map[string]string{path: content})
 }
 
 func (s *Server) RootURI() string {
